@@ -562,7 +562,7 @@ class World:
     """Context manager that installs every seam, and removes it again."""
 
     def __init__(self, stdin_data=None, stdin_sched=None, stdout_sched=None, stdin_damaged=(),
-                 vcwd=None):
+                 vcwd=None, stdout_unbuffered=False):
         self.fs = SimFS()
         self.vcwd = (vcwd or VCWD).rstrip("/") + "/"
         self.log = self.fs.log
@@ -572,9 +572,14 @@ class World:
         self.stdin_raw = SimRawPipe(stdin_data if stdin_data is not None else b"",
                                     self.stdin_sched, self.log)
         self.stdin_buf = TracedReader(io.BufferedReader(self.stdin_raw), "<stdin>", stdin_damaged)
+        if stdout_unbuffered:
+            # python -u / PYTHONUNBUFFERED=1: sys.stdout.buffer IS the raw file; a blocking
+            # descriptor takes every write whole
+            self.stdout_sched = ChunkSchedule("whole", 0)
         self.stdout_raw = SimRawSink(self.stdout_sched, self.log)
-        self.stdout_buf = io.BufferedWriter(self.stdout_raw)
-        self.stdout_txt = io.TextIOWrapper(self.stdout_buf, encoding="utf-8", newline="\n")
+        self.stdout_buf = self.stdout_raw if stdout_unbuffered else io.BufferedWriter(self.stdout_raw)
+        self.stdout_txt = io.TextIOWrapper(self.stdout_buf, encoding="utf-8", newline="\n",
+                                           write_through=stdout_unbuffered)
         self.stdout_txt.mode = "w"
         self.stderr = io.StringIO()
         self.clock = StepClock()
